@@ -198,6 +198,8 @@ def build(ctx):
 
     _run()
     _python_side(ctx)
+    from contracts import sqlspec as _SP
+    _SP.engine_obligations(ctx, ex)
     ctx.assume('token abstraction: every reader of the aggregated_*_v3 tables sums `usage` over `token`; one shard changed by e changes the total by e (meta-lemma L1)')
     ctx.assume('the per-day table books each delta on UTC_DATE() of the statement; the invariant is stated on the sum over dates')
     ctx.assume('attempt_resources.quantity / deduped_resource_id are never updated (the duplicate branch of the only writer is `quantity = quantity`)')
